@@ -561,6 +561,20 @@ func RunJavascript(ctx *Context, bs *Bindings, props map[string]interface{}, src
 	defer timer.Stop()
 	Log(DEBUG, ctx, "core.RunJavascript", "code", src)
 
+	// Whatever a script manages to make the interpreter panic about
+	// (a thrown value that cannot be turned into a message, a result
+	// whose getter throws, a Go value the interpreter cannot reflect
+	// on) is that script's error, not the end of its caller: actions
+	// run in goroutines of their own, where a panic takes the process
+	// down.  (The time limit's Halt is dealt with further down.)
+	defer func() {
+		if caught := recover(); caught != nil {
+			Log(ERROR, ctx, "core.RunJavascript", "panic", fmt.Sprintf("%v", caught))
+			result = nil
+			rerr = fmt.Errorf("Javascript failed: %v", caught)
+		}
+	}()
+
 	// https://github.com/robertkrimen/otto#otto
 	env := make(map[string]interface{})
 	envBindings := make(map[string]interface{})
